@@ -38,5 +38,15 @@ if sd:
         det.append(f"| {os.path.basename(os.path.dirname(f))} | {m.get('needs_to_manifest','see AGENT_README.md').replace('|','/')} | {v} |")
     det.append('')
 s=re.sub(r'(<!-- BEGIN GENERATED: detection -->\n).*?(<!-- END GENERATED: detection -->)',lambda m:m.group(1)+'\n'.join(det)+'\n'+m.group(2),s,flags=re.S)
+cp=f'{here}/coverage_snapshot.json'
+if os.path.exists(cp):
+    snap=json.load(open(cp))
+    rows=['| check | quick: cases | non-trivial | outcome classes | wall | thorough: cases | non-trivial | outcome classes | wall | thorough completed |','|---|---|---|---|---|---|---|---|---|---|']
+    for c in sorted(snap):
+        q=snap[c].get('quick',{}); t=snap[c].get('thorough',{})
+        f=lambda d,k: f"{d[k]:,}".replace(',',' ') if k in d else '—'
+        w=lambda d: f"{d['wall_s']:.0f} s" if 'wall_s' in d else '—'
+        rows.append(f"| {c} | {f(q,'evaluations')} | {f(q,'nontrivial')} | {f(q,'classes')} | {w(q)} | {f(t,'evaluations')} | {f(t,'nontrivial')} | {f(t,'classes')} | {w(t)} | {('yes' if t.get('exhaustive') else 'no — deadline, see below') if t else '—'} |")
+    s=re.sub(r'(<!-- BEGIN GENERATED: coverage -->\n).*?(<!-- END GENERATED: coverage -->)',lambda m:m.group(1)+'\n'.join(rows)+'\n'+m.group(2),s,flags=re.S)
 open(f'{here}/DESIGN.md','w').write(s)
 print('tables regenerated')
